@@ -186,3 +186,41 @@ def run(ctx):
         )
     if nopt < 2:
         raise AnalysisError("subrun: all_options no longer sets cache_scope and check_valid", "subrun")
+
+    # ---- C38.7 no helper on the subrun path is replayed wholesale, except the documented ones ----
+    # A task that is validated SHALLOW is answered by ultimate reduction: its whole sub-tree is replaced by the recorded final value, including
+    # `cache=False` tasks beneath it that a direct evaluation (FULL validation of every level) would run again.  Library-internal tasks that take a
+    # QuotedExpression and merely forward it sit between subrun and the user's expression; making one of them SHALLOW changes what subrun returns.
+    r7 = ctx.rule("C38.7", "library-internal tasks with check_valid=SHALLOW are exactly the documented ones", floor=3)
+    SHALLOW_OK = {
+        ("redun/scheduler.py", "_subrun_root_task"): "the sub-scheduler's root: documented, its consequences are C38.5/C12.5 (known findings)",
+        ("redun/scheduler.py", "subrun"): "the scheduler task itself (passes its cache options on; C38.6)",
+        ("redun/functools.py", "_no_prov"): "documented: prov=False subtree is replayed as a whole",
+        ("redun/scripting.py", "_script"): "documented: a script command is replayed when its outputs are valid",
+    }
+    nsh = 0
+    for mod in repo.modules.values():
+        if mod.rel.startswith("redun/tests") or not mod.rel.startswith("redun/"):
+            continue
+        for q, fn in mod.funcs.items():
+            for d in getattr(fn, "decorator_list", []):
+                if not isinstance(d, ast.Call) or (call_name(d) or "").split(".")[-1] not in ("task", "scheduler_task"):
+                    continue
+                cv = kwarg(d, "check_valid")
+                if cv is None:
+                    continue
+                shallow = "SHALLOW" in src(cv) or (isinstance(cv, ast.Constant) and str(cv.value).lower() == "shallow")
+                if not shallow:
+                    continue
+                nsh += 1
+                r7.check(
+                    (mod.rel, q) in SHALLOW_OK,
+                    f"{mod.rel}:{q}:check_valid-shallow",
+                    f"the library task {q} is declared check_valid=SHALLOW: when it is reached with a recorded call node from an earlier execution its whole sub-tree is replaced by the recorded value "
+                    "(ultimate reduction), so tasks beneath it that must run again (cache=False) are skipped -- an expression evaluated through subrun with exported options returns a stale result where direct "
+                    "evaluation re-runs them",
+                    mod.rel,
+                    fn.lineno,
+                )
+    if nsh < 3:
+        raise AnalysisError(f"only {nsh} SHALLOW-validated library tasks found (subrun, subrun_root_task, no_prov, script expected)", "check_valid")
